@@ -293,7 +293,18 @@ def broken_connections_phase(ctx, exe, n=120, nofile=48, label="brokenconn"):
             try:
                 s = socket.socket(socket.AF_UNIX, socket.SOCK_STREAM)
                 s.settimeout(2)
-                s.connect(d.sock)
+                t_c = time.time()
+                while True:
+                    try:
+                        s.connect(d.sock)
+                        break
+                    except OSError as e_c:
+                        # EAGAIN = the listen backlog is full for the moment (the workers are still waiting out the I/O time limit
+                        # of earlier broken connections): what libmunge does is wait and try again; only a daemon that stays
+                        # unreachable is a failure
+                        if e_c.errno != 11 or time.time() - t_c > 20:
+                            raise
+                        time.sleep(0.1)
                 s.sendall(raw[:k])
                 s.close()
                 sent += 1
